@@ -515,7 +515,7 @@ Definition set_P (h : heap) (s : stream) (v : Q) : oret := (wr h (tc s) (CTC (fs
 Definition scale (h : heap) (s : stream) (k : Q) : oret := (wrvecs h (data_rows h s) (vscale k), s, None).
 
 (* constructors *)
-Definition T0 : Q := 5244991919916646 # 17592186044416.   (* the float 298.15 *)
+Definition T0 : Q := 2622555134571315 # 8796093022208.   (* the float 298.15 *)
 Definition P0 : Q := 101325.
 Definition new_single (h : heap) (i : sid) (k p : nat) (v : vec) (T P pr : Q) (c : list (nat * Q)) : res (heap * stream) :=
   if tc_valid T P then
@@ -577,6 +577,7 @@ Inductive op :=
 | OSetPhase (i p : nat) | OSetPhases (i : nat) (phs : list nat) | OScale (i : nat) (k : Q) | OEmpty (i : nat)
 | OReduce (i : nat)
 | OReadMass (i : nat) | OSetMass (i r c : nat) (v : Q)
+| OReadH (i : nat)
 | OSkip.
 
 Definition creator (st : state) (r : res (heap * stream)) : state * option err :=
@@ -704,6 +705,15 @@ Definition mass_obs (st : state) (s : stream) : list vec :=
   let rows := match view_of st (imol s) with Some v => v_rows v | None => data_rows (hp st) s end in
   map (fun r => vmul (rdvec (hp st) r) (mw_vec (pkg_at (hp st) (imol s)))) rows.
 
+(* Stream.H.  `_get_property` memoises in (_property_cache, _property_cache_key): a dict of values and the complete
+   state (phase, T, P, composition) they were computed for; proxy() hands BOTH objects to the proxy and reset_cache()
+   replaces both, so the pair is always held as a unit and a hit returns a value computed for an equal state.  The
+   memo is therefore modelled by its specification: reading H (operation OReadH, which fills and uses the memo on the
+   real objects) does not change the model state and H is a function of the current state.  For the stub packages of
+   the harness (Hf = 0, Cn = 64 for every chemical, any phase):  H = 64 (T - 298.15) * total molar flow. *)
+Definition enthalpy (h : heap) (s : stream) : Q :=
+  64 * (fst (rdtc h (tc s)) - T0) * qsum (map (fun r => qsum (rdvec h r)) (data_rows h s)).
+
 (* the phase(s) s.imass reports: through the Phase object / the tuple the view was built with *)
 Definition mass_phases (st : state) (s : stream) : list nat :=
   let v := match view_of st (imol s) with Some v => v | None => new_view (hp st) s end in
@@ -731,6 +741,7 @@ Definition step (st : state) (o : op) : state * option err :=
   | OReduce i => new1 st i reduce
   | OReadMass i => read_mass_step st i
   | OSetMass i r c v => set_mass_step st i r c v
+  | OReadH i => match nth_error (ss st) i with Some _ => (st, None) | None => (st, Some EIndex) end
   | OSkip => (st, None)
   end.
 
@@ -738,6 +749,18 @@ Fixpoint run (st : state) (ops : list op) : state * list (option err) :=
   match ops with
   | [] => (st, [])
   | o :: t => let (st1, e) := step st o in let (st2, es) := run st1 t in (st2, e :: es)
+  end.
+
+(* the values returned by the OReadH operations of a history, in order *)
+Fixpoint hlog (st : state) (ops : list op) : vec :=
+  match ops with
+  | [] => []
+  | o :: t =>
+    let rest := hlog (fst (step st o)) t in
+    match o with
+    | OReadH i => match nth_error (ss st) i with Some s => enthalpy (hp st) s :: rest | None => rest end
+    | _ => rest
+    end
   end.
 
 (* ---------- observation ---------- *)
@@ -791,12 +814,13 @@ Definition PK : list (list nat) := [[0; 1; 2]; [2; 0; 3; 1]]%nat.
 Definition MWS : list Q := [16; 32; 8; 4].
 Definition init : state := mkstate [] [] [] [].
 Definition run_eqb (ops : list op) (res : list (option err)) (final : list sobs)
-           (mass keyed : list (list vec)) (mphases : list (list nat)) : bool :=
+           (mass keyed : list (list vec)) (mphases : list (list nat)) (Hs reads : vec) : bool :=
   let (st, es) := run PK MWS init ops in
   let snap := snapshot st in
   list_eqb oerr_eqb es res && list_eqb sobs_eqb snap final
   && list_eqb (list_eqb vapproxb) (map (mass_obs PK MWS st) (ss st)) mass
   && list_eqb (list_eqb vapproxb) (map o_rows snap) keyed
-  && list_eqb (list_eqb Nat.eqb) (map (mass_phases st) (ss st)) mphases.
+  && list_eqb (list_eqb Nat.eqb) (map (mass_phases st) (ss st)) mphases
+  && vapproxb (map (enthalpy (hp st)) (ss st)) Hs && vapproxb (hlog PK MWS init ops) reads.
 Definition run_show (ops : list op) :=
   let (st, es) := run PK MWS init ops in (es, snapshot st, map (mass_obs PK MWS st) (ss st), hp st, cmap st, caches st).
